@@ -1031,7 +1031,17 @@ static int janet_channel_pop_with_lock(JanetChannel *channel, Janet *item, int i
         return 0;
     }
     janet_assert(!janet_chan_unpack(channel, item, 0), "bad channel packing");
-    if (!janet_q_pop(&channel->write_pending, &writer, sizeof(writer))) {
+    int no_writer;
+    if (is_threaded) {
+        /* don't dereference fiber from another thread */
+        no_writer = janet_q_pop(&channel->write_pending, &writer, sizeof(writer));
+    } else {
+        /* Skip writers that have abandoned their give (timeout, cancel), like stale readers in push */
+        do {
+            no_writer = janet_q_pop(&channel->write_pending, &writer, sizeof(writer));
+        } while (!no_writer && (writer.sched_id != writer.fiber->sched_id));
+    }
+    if (!no_writer) {
         /* Pending writer */
         if (is_threaded) {
             JanetVM *vm = writer.thread;
